@@ -38,8 +38,10 @@ class Stub:
     """assumed-contract stand-in for an external / library-algorithm function cut out of the closure.
     record: [(ghost name, parameter index, C++ record name or None)] -- ghost copies of the arguments (pointers to structs are copied by value)
     ret: name of a non-deterministic ghost returned (or None for void);  count: ghost call counter;  body: extra C statements"""
-    def __init__(s, fn_re, record=(), ret=None, count=None, body='', only_first=False):
+    def __init__(s, fn_re, record=(), ret=None, count=None, body='', only_first=False, decl='', ghosts=(), optional=False):
         s.fn_re = fn_re; s.record = list(record); s.ret = ret; s.count = count; s.body = body; s.only_first = only_first
+        s.decl = decl; s.ghosts = list(ghosts)   # extra C declarations / names of extra ghost objects the body writes (added to the assigns clause)
+        s.optional = optional
 
 class Check:
     def __init__(s, id, props, group, params, wrapper, fn=None, cxx=None, ghosts=(), requires=(), lemmas=(), ensures=(),
@@ -154,7 +156,7 @@ class Inst:
                 for i, ln in enumerate(lines):
                     if ln.startswith('define '):
                         mm = re.search(r'@("[^"]*"|[-a-zA-Z$._0-9]+)\(', ln)
-                        if mm and any(r.search(mm.group(1)) for r in rx):
+                        if mm and any(r.search(mm.group(1)) or r.search(demangle([mm.group(1).strip('"')])[0]) for r in rx):
                             m2 = list(re.finditer(r' #\d+', ln))
                             if m2: lines[i] = ln[:m2[-1].start()] + ' noinline' + ln[m2[-1].start():]
                 open(ll, 'w').write('\n'.join(lines))
@@ -316,6 +318,7 @@ class Runner:
         for st in check.stubs:
             r = re.compile(st.fn_re); hits = sorted(n for n, d in inst.dem.items() if r.fullmatch(d))
             if not hits: hits = sorted(n for n in m.decls if r.fullmatch(n[1:]))      # external C function (declaration only)
+            if not hits and st.optional: continue
             if not hits: raise Broken('check %s: stub pattern %s matches no function of the IR (inlined away / renamed?)' % (check.id, st.fn_re))
             if len(hits) > 1 and not st.only_first: raise Broken('check %s: stub pattern %s matches %d functions: %s' % (check.id, st.fn_re, len(hits), [inst.dem[h] for h in hits][:4]))
             stubfns.append((st, hits[0]))
@@ -357,8 +360,9 @@ class Runner:
                         body.append('%s = %sa%d;' % (gname, '' if (native and byv) else '*', idx))
                 if st.ret:
                     out.append('%s;' % g_.ct(sret, st.ret)); stub_ghosts.append((g_.ct(sret), st.ret, None))
+                if st.decl: out.append(st.decl)
                 if st.body: body.append(st.body)
-                body.append('return %s;' % st.ret if st.ret else 'return;')
+                if 'return' not in st.body: body.append('return %s;' % st.ret if st.ret else 'return;')
                 out.append('%s(%s){ %s }' % (g_.ct(sret, ll2c.cname(n)), ', '.join(ps) or 'void', ' '.join(body)))
             return '\n'.join(out)
         fcn = ll2c.cname(fn)
@@ -374,7 +378,7 @@ class Runner:
         if check.assigns is not None:
             stub_targets = []
             for st, n in stubfns:
-                stub_targets += ([st.count] if st.count else []) + [r_[0] for r_ in st.record]
+                stub_targets += ([st.count] if st.count else []) + [r_[0] for r_ in st.record] + list(st.ghosts)
             ctext.append('__CPROVER_assigns(%s)' % ', '.join([b.for_contract(a) for a in check.assigns] + stub_targets + ['EXC']))
         ens_lines = []
         for label, e in check.ensures:
